@@ -53,6 +53,7 @@ bool active = false;
 uint64_t vnow = MV_T0;
 uint64_t npoints = 0;
 int forced_spins = 0;
+uint64_t time_devs = 0;    // TIME deviations taken: the clock moved although some thread could have run (a stalled vCPU)
 uint64_t time_jumps = 0;   // times the clock advanced because nothing could run (a quiescent state was reached)
 int poll_rounds = 0;      // consecutive default switches away from threads found polling (see Th::periodic)
 bool time_dev = false;
@@ -180,7 +181,7 @@ void schedule(Th* me, const char* what, uintptr_t addr, bool exiting = false) {
             uint64_t d = NEVER;
             for (int i = 0; i < NT; i++) { Th* t = &TH[i]; if ((t->wait == W_IDLE || t->wait == W_SLEEP || t->wait == W_COND) && t->deadline > vnow && t->deadline - vnow < TDEV_NEAR && t->deadline < d) d = t->deadline; }
             for (int i = 0; i < ndeadlines;) { if (deadlines[i] <= vnow) { deadlines[i] = deadlines[--ndeadlines]; continue; } if (deadlines[i] - vnow < TDEV_NEAR && deadlines[i] < d) d = deadlines[i]; i++; }
-            if (d != NEVER && pmc_choose(2, PMC_TIME, 1, "time: next deadline passes now")) { set_now(d); continue; }
+            if (d != NEVER && pmc_choose(2, PMC_TIME, 1, "time: next deadline passes now")) { set_now(d); time_devs++; continue; }
         }
         int idx = 0;
         if (n > 1) {
@@ -285,7 +286,7 @@ extern "C" {
 void (*mv_on_deadlock)(const char*) = default_deadlock;
 
 void mv_init(void) {
-    NT = 0; NM = 0; NP = 0; NR = 0; vnow = MV_T0; npoints = 0; time_jumps = 0; forced_spins = 0; poll_rounds = 0; time_dev = false; ndeadlines = 0; tso_mode = false; switch_points = true;
+    NT = 0; NM = 0; NP = 0; NR = 0; vnow = MV_T0; npoints = 0; time_jumps = 0; time_devs = 0; forced_spins = 0; poll_rounds = 0; time_dev = false; ndeadlines = 0; tso_mode = false; switch_points = true;
     mv_on_deadlock = default_deadlock;
     if (&photon::now) photon::now = vnow;
     self = reg_thread("main");
@@ -324,6 +325,7 @@ int mv_self(void) { return self ? self->id : -1; }
 int mv_nthreads(void) { return NT; }
 void mv_set_name(const char* name) { if (self) snprintf(self->name, sizeof self->name, "%s", name); }
 uint64_t mv_time_jumps(void) { return time_jumps; }
+uint64_t mv_time_devs(void) { return time_devs; }
 uint64_t mv_sched_points(void) { return npoints; }
 void mv_poison(const void* p, size_t n) { if (NP >= MAXPOISON) return; PZ[NP].lo = (uintptr_t)p; PZ[NP].hi = (uintptr_t)p + n; NP = NP + 1; }
 void mv_unpoison(const void* p, size_t n) {
